@@ -10,6 +10,7 @@
   environment steps that may fire at any time).
 -/
 import NemoVerif.Lemmas.Embed
+import NemoVerif.Lemmas.EmbedProgress
 namespace NemoVerif.C19
 open NemoVerif NemoVerif.Embed
 
@@ -114,5 +115,89 @@ theorem batch_results_own (cfg : CacheCfg) (max : Nat) (U : α → Prop) (g : α
   intro r hr ev id hpc
   have := hI.reqs r hr
   simpa [ReqOK, hpc] using this
+
+/-! ### request batching: progress ("every concurrent request completes") -/
+
+/-- **No task ever faults or spins** (for `max_batch_size ≥ 1`), under every schedule: no request task hits
+    the `KeyError` on `_req_results[req_id]` or an `AttributeError` on a `None` event, no request is caught in
+    the `while … await submitted.wait()` loop with the event set (which would be a busy loop that never
+    yields), no batch task dies (which would leave its requests waiting forever). -/
+theorem batch_no_fault (cfg : CacheCfg) (max : Nat) (hmax : 1 ≤ max) (g : α → κ) (f : α → β)
+    (reqTexts : List α) (directTexts : List (List α)) (store0 : Dict κ β)
+    (s : State α κ β) (h : Reachable cfg max g f reqTexts directTexts store0 s) :
+    (∀ r ∈ s.reqs, r.pc ≠ .spin ∧ r.pc ≠ .crashed) ∧ (∀ b ∈ s.batches, b ≠ BPc.crashed) := by
+  have hP := pinv_reachable (cfg := cfg) hmax h
+  constructor
+  · intro r hr
+    obtain ⟨i, hi⟩ := List.mem_iff_getElem?.1 hr
+    have := hP.reqs i r hi
+    constructor <;> intro hpc <;> simp [RInv, hpc] at this
+  · intro b hb hbc
+    obtain ⟨i, hi⟩ := List.mem_iff_getElem?.1 hb
+    exact hP.noCrashB i (by rw [hi, hbc])
+
+/-- **Deadlock freedom**: in every reachable state in which no atomic section is enabled, every request
+    and every direct call has returned. -/
+theorem batch_deadlock_free (cfg : CacheCfg) (max : Nat) (hmax : 1 ≤ max) (g : α → κ) (f : α → β)
+    (reqTexts : List α) (directTexts : List (List α)) (store0 : Dict κ β)
+    (s : State α κ β) (h : Reachable cfg max g f reqTexts directTexts store0 s)
+    (hstuck : ∀ l, step cfg max g f s l = none) : AllDone s :=
+  deadlock_free g f (pinv_reachable (cfg := cfg) hmax h) hstuck
+
+/-- **Every step strictly decreases a natural-number measure** (no hypothesis at all), so no schedule is
+    infinite: there is no livelock, and fairness assumptions are not needed. -/
+theorem batch_step_decreases (cfg : CacheCfg) (max : Nat) (g : α → κ) (f : α → β) (s s' : State α κ β) (l : Label)
+    (hs : step cfg max g f s l = some s') : measure s' < measure s :=
+  measure_step g f l hs
+
+/-- every schedule from `s` has at most `measure s` steps -/
+theorem batch_schedule_bounded (cfg : CacheCfg) (max : Nat) (g : α → κ) (f : α → β) (s s' : State α κ β)
+    (ls : List Label) (hr : run cfg max g f s ls = some s') : ls.length ≤ measure s := by
+  have := measure_run g f ls s s' hr
+  omega
+
+/-- **batch_progress.**  Take any schedule of the index started with any requests / direct calls — it is
+    finite (`batch_schedule_bounded`) — and follow it until nothing more can run: then every request and
+    every direct call has completed, each batched request with the model's vector of its own text and each
+    direct call with the vectors of its texts in input order. -/
+theorem batch_progress (cfg : CacheCfg) (max : Nat) (hmax : 1 ≤ max) (U : α → Prop) (g : α → κ) (f : α → β)
+    (hinj : InjOn g U) (reqTexts : List α) (directTexts : List (List α)) (store0 : Dict κ β)
+    (hr : ∀ t ∈ reqTexts, U t) (hd : ∀ ts ∈ directTexts, ∀ t ∈ ts, U t) (hs : StoreOK U g f store0)
+    (ls : List Label) (s' : State α κ β)
+    (hrun : run cfg max g f (init reqTexts directTexts store0) ls = some s')
+    (hmaximal : ∀ l, step cfg max g f s' l = none) :
+    (∀ r ∈ s'.reqs, r.pc = .done (some (f r.text))) ∧
+    (∀ d ∈ s'.directs, d.pc = .done (d.texts.map (fun t => some (f t)))) := by
+  have hreach := reachable_run ls _ s' (Reachable.init (cfg := cfg) (max := max) (g := g) (f := f)
+    (reqTexts := reqTexts) (directTexts := directTexts) (store0 := store0)) hrun
+  obtain ⟨h1, h2⟩ := batch_deadlock_free cfg max hmax g f reqTexts directTexts store0 s' hreach hmaximal
+  obtain ⟨s1, s2, _⟩ := batch_safety cfg max U g f hinj reqTexts directTexts store0 hr hd hs s' hreach
+  constructor
+  · intro r hr'
+    obtain ⟨v, hv⟩ := h1 r hr'
+    rw [hv, s1 r hr' v hv]
+  · intro d hd'
+    obtain ⟨res, hres⟩ := h2 d hd'
+    rw [hres, s2 d hd' res hres]
+
+/-- non-vacuity of the batching theorems: a concrete schedule of three requests (a duplicate text),
+    batch size 2, persistent cache — two wait in one batch, the third waits for `submitted`, is woken by
+    the take, starts a second batch; the run ends with nothing enabled for the tasks and every request
+    holding its own vector (finite fact, by evaluation). -/
+example :
+    let cfg : CacheCfg := { enabled := true, persistent := true }
+    let g : String → Nat := String.length
+    let f : String → Nat := fun s => s.length + 7
+    ((run cfg 2 g f (init ["a", "bb", "a"] [] [])
+      [.enter 0, .enter 1, .enter 2, .bstart 0, .take 0 false, .enter 2, .bstart 1, .finish 0, .collect 1,
+       .take 1 true, .collect 0, .finish 1, .collect 2]).map (fun s => s.reqs.map (·.pc)))
+      = some [.done (some 8), .done (some 9), .done (some 8)] := by decide
+
+/-- `max_batch_size = 0` is outside the theorems' range for a reason: the first request waits for
+    `submitted`, and there is no batch task that could ever set it (finite fact, by evaluation). -/
+example :
+    ((run { enabled := false, persistent := false } 0 (fun s : String => s) (fun s : String => s)
+        (init ["a"] [] []) [.enter 0]).map (fun s => (s.reqs.map (·.pc), s.batches.length)))
+      = some ([.waitSub], 0) := by decide
 
 end NemoVerif.C19
